@@ -1969,6 +1969,23 @@ def _dijkstra_loop(ctx, modname, fn0, F, Q, loop, item, need_pred=True):
             dflag = F.b.reaching(e.id, nloop)
             if isinstance(dflag, ast.Subscript) and isinstance(dflag.value, ast.Name) and isinstance(dflag.slice, ast.Name) and F.root(dflag.slice.id, nloop) == v:
                 vis = dflag.value.id
+    # every node that is settled must be expanded: skipping the neighbour loop for a node because it is one of the requested targets cuts every
+    # shortest path that runs through that target
+    for e, p in vis_conds:
+        if isinstance(e, ast.Compare) and len(e.ops) == 1 and isinstance(e.ops[0], (ast.In, ast.NotIn)) and isinstance(e.left, ast.Name) \
+                and F.root(e.left.id, nloop) == v and isinstance(e.comparators[0], ast.Name):
+            skipped_when_member = (isinstance(e.ops[0], ast.In) != bool(p))
+            tab = e.comparators[0].id
+            fa_ = fn0.args
+            pos_ = fa_.posonlyargs + fa_.args
+            required_ = {x_.arg for x_ in pos_[:len(pos_) - len(fa_.defaults)]} | {x_.arg for x_, d_ in zip(fa_.kwonlyargs, fa_.kw_defaults) if d_ is None}
+            # (an optional parameter with a default - a set of vertices to avoid .. - is another feature, not the targets of the query)
+            from_params = bool((hr.closure(F.deps(), {tab}) | {tab, F.root(tab, nloop)}) & required_)
+            is_flag_table = any((fm_ := hr.flag_mark(st_)) and isinstance(fm_[0], ast.Name) and fm_[0].id == tab and fm_[2] is True for st_ in au.stmts(loop.body))
+            if skipped_when_member and from_params and not is_flag_table:
+                ctx.fail("C09-D2", S(nloop), "a settled node is not expanded when it is one of the requested targets",
+                         "the neighbours of a target are never relaxed from it: the shortest path to another target that runs through it is replaced by a "
+                         "detour, or the other target is not reached at all")
     # a flag table with the opposite polarity (`unsettled`: starts True, cleared when the node is settled) is not analysed
     inv_tabs = set()
     for st_ in au.stmts(loop.body):
